@@ -115,6 +115,8 @@ Mixed == {Alt(<<R(97, 99), R(100, 102)>>),                       \* adjacent
           Alt(<<[k |-> "cls", n |-> "ASCII_DIGIT"], R(97, 102), S1(95)>>),
           Alt(<<[k |-> "cls", n |-> "ASCII_HEX_DIGIT"], [k |-> "cls", n |-> "ASCII_ALPHA_UPPER"]>>),
           Alt(<<R(55295, 57344), S1(65535)>>), Alt(<<R(65535, 65536), R(1114110, 1114111), S1(0)>>),
+          \* ranges that abut the surrogate block from both sides ("any scalar value"): U+D800..U+DFFF stay outside
+          Alt(<<R(0, 55295), R(57344, 1114111)>>), Alt(<<R(57344, 65535), R(32, 55295)>>), Alt(<<R(256, 55295), S1(57344)>>),
           Alt(<<S1(91), S1(93), R(40, 41), S1(123), S1(125)>>),
           Alt(<<R(0, 31), R(127, 159), S1(32)>>),
           Alt(<<R(122, 97), R(100, 102)>>), Alt(<<R(122, 97), R(57, 48)>>), Alt(<<S1(120), R(122, 97)>>)}    \* reversed = empty
